@@ -246,6 +246,13 @@ where
     ) -> bool {
         let mut is_success;
 
+        // a failed solve leaves its targets untouched.  Clear them, so that
+        // the starting point never depends on what an earlier solve of the
+        // same solver object left behind
+        variables.x.fill(T::zero());
+        variables.s.fill(T::zero());
+        variables.z.fill(T::zero());
+
         if data.P.nnz() == 0 {
             // LP initialization
             // solve with [0;b] as a RHS to get (x,-s) initializers
